@@ -208,16 +208,17 @@ PROPS["C11"] = {"theorems": ["C11_scalar", "C11_scalar_schema", "C11_scalar_vali
                              "C11_list_schema", "C11_ntuple_schema", "PredOK_minItems", "PredOK_maxItems",
                              "PredOK_uniqueItems_partial", "C11_tree_partial", "C11_iff_partial", "node_scalar_validator",
                              "node_list_validator", "node_union_validator", "node_optional_validator",
-                             "predCheck_PredOK", "predCheck_noRaise", "SchemasDecide.count"],
+                             "predCheck_PredOK", "predCheck_noRaise", "SchemasDecide.count", "C11_record_schema",
+                             "node_record_validator", "node_ntuple_validator", "fields_formula", "foldl_jset_nodup"],
                 "modules": ["KodaModel.Properties.C11", "KodaModel.Properties.C11Pat", "KodaModel.Properties.C11Containers",
-                            "KodaModel.Properties.C11Glue"],
+                            "KodaModel.Properties.C11Record", "KodaModel.Properties.C11Glue"],
                 "level_note": "proved: `C11_iff_partial` — for every tree (any depth, any width) built from string / integer / float / "
                               "boolean validators with typed predicates, lists, unions and optionals, and every JSON value, the "
                               "generated schema accepts the value iff the validator does, under the side conditions `ok` "
                               "(predicates used on their kind; the agreement conditions findings D13 / D14 / D15 violate, each "
                               "with its witness); keyword clashes merged under allOf; the pattern reader inverts the pattern "
-                              "writer for every pattern; schema side of n-tuples; maps, records, tuples in the tree theorem and "
-                              "named recursion are decided by the correspondence and the jsonschema oracle only",
+                              "writer for every pattern; maps, uniform tuples, equality validators and named recursion are not in "
+                              "the tree theorem: they are decided by the correspondence and the jsonschema oracle only",
                 "run": _run_c11, "replay": _replay_c11,
                 "rule": "validator trees of the JSON-native fragment to depth 3 (scalars with every supported predicate, "
                         "lists / uniform / n-tuples, string-keyed maps, the five record kinds with optional keys and both "
